@@ -2,39 +2,117 @@
 C06 — the bounds-checked modes keep the declared access window inside the tape allocation.
 Lemmas about the layout model `Hpbf/Window.lean`; the property theorems are in `Hpbf/Props/C06.lean`.
 
-Range guard.  As in C09 all claims are made below `Mem.bound = 2^59` cells: allocation sizes along the
+Range guard.  As in C09 all claims are made below `bound = 2^59` cells: allocation sizes along the
 run, the window constants `minAcc`, `maxAcc` and the shifts of the program.  (Why this covers what
 the real code can reach before the allocator fails is explained at the top of `Proofs/C09.lean`.)
 Between a move and its probe the pointer index can be up to `2 * bound` away from the allocation,
-therefore the closed form of `Mem.growth` is re-established here for the wider range `2^61`
-(`growth_eq_wide`; same proof as C09's `growth_eq`, nothing wraps below `2^63`).
+therefore the closed form of `Mem.growth` is established here for the wider range `2^61`
+(`growth_closed`; nothing wraps below `2^63`).
+
+This file cannot import `Hpbf/Proofs/C09.lean` (its `Hpbf.Op` clashes with `Hpbf.Op` of `Hpbf/Bf.lean`,
+which `Hpbf/Window.lean` imports), so the few facts about `wrapU64`/`asI64` are proved again, in this
+namespace.  The closed forms are the ones of C09 (`neededBelow`, `neededAbove`, `newSize`,
+`addedBelow`), written over layouts.
 -/
 import Hpbf.Window
-import Hpbf.Proofs.C09
 import Hpbf.Proofs.C11
 
 namespace Hpbf
 namespace C06
 
-open Window Mem
+open Window
 
 variable {w : Nat}
 
-/-! ### the closed form of `Mem.growth` for the range `2^61` -/
+/-! ### 64-bit wrap arithmetic -/
 
-theorem growth_eq_wide {m : Mem w} {a b : Int}
-    (h1 : (m.size : Int) ≤ 2305843009213693952)
-    (h2 : -2305843009213693952 ≤ asI64 m.offset) (h3 : asI64 m.offset ≤ 2305843009213693952)
-    (ha1 : -2305843009213693952 ≤ a) (ha2 : a ≤ 2305843009213693952)
-    (hb1 : -2305843009213693952 ≤ b) (hb2 : b ≤ 2305843009213693952) :
-    m.growth a b = m.growthSpec a b := by
+theorem asI64_wrapU64 {x : Int} (h1 : -9223372036854775808 ≤ x) (h2 : x < 9223372036854775808) :
+    asI64 (wrapU64 x) = x := by
+  unfold asI64 wrapU64 two63 two64
+  split <;> omega
+
+theorem wrapU64_off (o : Nat) (x : Int) :
+    wrapU64 ((o : Int) + x) = wrapU64 (asI64 o + x) := by
+  unfold wrapU64 asI64 two63 two64 at *
+  split <;> omega
+
+theorem wrapU64_nonneg {x : Int} (h1 : 0 ≤ x) (h2 : x < 18446744073709551616) :
+    wrapU64 x = x.toNat := by
+  unfold wrapU64 two64; omega
+
+theorem asI64_small {n : Nat} (h : n < two63) : asI64 n = n := by
+  unfold asI64; simp [h]
+
+/-! ### guard -/
+
+/-- `2^59`, the range guard (the same number as `Mem.bound` of C09). -/
+def bound : Int := 576460752303423488
+
+theorem bound_eq : bound = 2 ^ 59 := by decide
+
+/-- Range guard on an `isize` constant (window bound, shift). -/
+def SmallArg (x : Int) : Prop := -bound < x ∧ x < bound
+
+instance (x : Int) : Decidable (SmallArg x) := by unfold SmallArg; infer_instance
+
+/-- Range guard on a layout: size and pointer index below `2^59`. -/
+def _root_.Hpbf.Window.Lay.Small (l : Lay) : Prop :=
+  (l.size : Int) < bound ∧ -bound < l.cur ∧ l.cur < bound
+
+instance (l : Lay) : Decidable l.Small := by unfold Lay.Small; infer_instance
+
+instance (l : Lay) (mn mx : Int) : Decidable (l.InWindow mn mx) := by unfold Lay.InWindow; infer_instance
+
+/-- The wider range in which the closed forms hold (`4 * bound = 2^61`). -/
+def _root_.Hpbf.Window.Lay.Wide (l : Lay) : Prop :=
+  (l.size : Int) ≤ 4 * bound ∧ -(4 * bound) ≤ l.cur ∧ l.cur ≤ 4 * bound
+
+theorem _root_.Hpbf.Window.Lay.Small.wide {l : Lay} (h : l.Small) : l.Wide := by
+  unfold Lay.Small Lay.Wide bound at *; omega
+
+/-- The layout of a tape object: allocation size and `offset as isize`. -/
+def _root_.Hpbf.Window.Lay.ofMem (m : Mem w) : Lay := ⟨m.size, asI64 m.offset⟩
+
+/-! ### closed forms of `make_accessible` over layouts (cf. C09) -/
+
+/-- `needed_below` without wrap-arounds: `max 0 (-(cur + a))`. -/
+def _root_.Hpbf.Window.Lay.needBelow (l : Lay) (a : Int) : Nat := (-(l.cur + a)).toNat
+/-- `needed_above` without wrap-arounds: `max 0 (cur + b - size)`. -/
+def _root_.Hpbf.Window.Lay.needAbove (l : Lay) (b : Int) : Nat := (l.cur + b - l.size).toNat
+/-- Number of new cells when `make_accessible` grows. -/
+def _root_.Hpbf.Window.Lay.added (l : Lay) (a b : Int) : Nat :=
+  max (l.size / 2) (l.needBelow a + l.needAbove b)
+/-- `added_below` (the three-case `match`). -/
+def _root_.Hpbf.Window.Lay.addedBelow (l : Lay) (a b : Int) : Nat :=
+  if l.needBelow a = 0 then 0
+  else if l.needAbove b = 0 then l.added a b
+  else min (max (l.needBelow a) (l.added a b / 2)) (l.added a b - l.needAbove b)
+
+/-- `make_accessible a b` has nothing to do. -/
+def _root_.Hpbf.Window.Lay.NoGrowth (l : Lay) (a b : Int) : Prop := l.needBelow a = 0 ∧ l.needAbove b = 0
+
+instance (l : Lay) (a b : Int) : Decidable (l.NoGrowth a b) := by unfold Lay.NoGrowth; infer_instance
+
+theorem noGrowth_iff (l : Lay) (a b : Int) :
+    l.NoGrowth a b ↔ 0 ≤ l.cur + a ∧ l.cur + b ≤ l.size := by
+  unfold Lay.NoGrowth Lay.needBelow Lay.needAbove; omega
+
+/-- The numbers computed by the model's `make_accessible` are the wrap-free ones, for sizes,
+offsets and arguments up to `2^61`. -/
+theorem growth_closed {m : Mem w} {a b : Int} (hm : (Lay.ofMem m).Wide)
+    (ha1 : -(4 * bound) ≤ a) (ha2 : a ≤ 4 * bound) (hb1 : -(4 * bound) ≤ b) (hb2 : b ≤ 4 * bound) :
+    m.growth a b = ((Lay.ofMem m).needBelow a, (Lay.ofMem m).needAbove b,
+      m.size + (Lay.ofMem m).added a b, (Lay.ofMem m).addedBelow a b) := by
+  obtain ⟨h1, h2, h3⟩ := hm
+  simp only [Lay.ofMem] at h1 h2 h3
+  unfold bound at *
   have e1 : asI64 (wrapU64 (asI64 m.offset + a)) = asI64 m.offset + a := by
     apply asI64_wrapU64 <;> omega
   have e2 : asI64 (wrapU64 (asI64 m.offset + b)) = asI64 m.offset + b := by
     apply asI64_wrapU64 <;> omega
   have e3 : asI64 m.size = m.size := by
     apply asI64_small; unfold two63; omega
-  unfold growth growthSpec addedBelow newSize neededBelow neededAbove
+  unfold Mem.growth Lay.addedBelow Lay.added Lay.needBelow Lay.needAbove Lay.ofMem
   simp only [e1, e2, e3]
   have hnb : (if asI64 m.offset + a < 0 then (asI64 m.offset + a).natAbs else 0)
       = (-(asI64 m.offset + a)).toNat := by
@@ -45,36 +123,41 @@ theorem growth_eq_wide {m : Mem w} {a b : Int}
     · apply wrapU64_nonneg <;> omega
     · omega
   rw [hnb, hna]
+  simp only [Nat.add_sub_cancel_left]
 
-/-! ### layouts -/
+/-- What the three-case `match` guarantees (pure arithmetic). -/
+theorem addedBelow_bounds (l : Lay) (a b : Int) :
+    l.needBelow a ≤ l.addedBelow a b ∧
+    l.addedBelow a b + l.needAbove b ≤ l.added a b ∧
+    (l.needBelow a = 0 → l.addedBelow a b = 0) ∧
+    (l.needBelow a ≠ 0 → l.needAbove b = 0 → l.addedBelow a b = l.added a b) := by
+  unfold Lay.addedBelow Lay.added
+  generalize l.needBelow a = nb at *
+  generalize l.needAbove b = na at *
+  generalize l.size / 2 = h at *
+  refine ⟨?_, ?_, ?_, ?_⟩
+  · split <;> (try split) <;> omega
+  · split <;> (try split) <;> omega
+  · intro h0; simp [h0]
+  · intro h0 h1; simp [h0, h1]
 
-/-- Range guard on a layout: size and pointer index below `2^59`. -/
-def _root_.Hpbf.Window.Lay.Small (l : Lay) : Prop :=
-  (l.size : Int) < bound ∧ -bound < l.cur ∧ l.cur < bound
-
-instance (l : Lay) : Decidable l.Small := by unfold Lay.Small; infer_instance
-
-/-- The wider range in which the closed forms hold (`4 * bound = 2^61`). -/
-def _root_.Hpbf.Window.Lay.Wide (l : Lay) : Prop :=
-  (l.size : Int) ≤ 4 * bound ∧ -(4 * bound) ≤ l.cur ∧ l.cur ≤ 4 * bound
-
-theorem _root_.Hpbf.Window.Lay.Small.wide {l : Lay} (h : l.Small) : l.Wide := by
-  unfold Lay.Small Lay.Wide bound at *; omega
-
-/-- The dummy memory `Lay.grow` computes with. -/
-def _root_.Hpbf.Window.Lay.mem (l : Lay) : Mem 8 := { buf := #[], size := l.size, offset := wrapU64 l.cur }
-
-/-- The layout of a tape object. -/
-def _root_.Hpbf.Window.Lay.ofMem (m : Mem w) : Lay := ⟨m.size, asI64 m.offset⟩
-
-theorem mem_offset {l : Lay} (h : l.Wide) : asI64 l.mem.offset = l.cur := by
-  unfold Lay.Wide bound at h
-  unfold Lay.mem
-  apply asI64_wrapU64 <;> omega
-
-/-- Cells `make_accessible` needs below / above the allocation (wrap-free). -/
-def _root_.Hpbf.Window.Lay.needBelow (l : Lay) (a : Int) : Nat := (-(l.cur + a)).toNat
-def _root_.Hpbf.Window.Lay.needAbove (l : Lay) (b : Int) : Nat := (l.cur + b - l.size).toNat
+/-- `Lay.grow` in closed form. -/
+theorem grow_eq {l : Lay} {a b : Int} (hl : l.Wide)
+    (ha1 : -(4 * bound) ≤ a) (ha2 : a ≤ 4 * bound) (hb1 : -(4 * bound) ≤ b) (hb2 : b ≤ 4 * bound) :
+    l.grow a b =
+      if l.NoGrowth a b then l
+      else { size := l.size + l.added a b, cur := l.cur + (l.addedBelow a b : Nat) } := by
+  have ho : asI64 (wrapU64 l.cur) = l.cur := by
+    unfold Lay.Wide bound at hl
+    apply asI64_wrapU64 <;> omega
+  have hof : Lay.ofMem ({ buf := #[], size := l.size, offset := wrapU64 l.cur } : Mem 8) = l := by
+    unfold Lay.ofMem; rw [ho]
+  have hg := growth_closed (m := ({ buf := #[], size := l.size, offset := wrapU64 l.cur } : Mem 8))
+    (a := a) (b := b) (by rw [hof]; exact hl) ha1 ha2 hb1 hb2
+  rw [hof] at hg
+  unfold Lay.grow
+  simp only [hg]
+  rfl
 
 /-- Workhorse: under the (wide) guard `Lay.grow` either does nothing (the range is already inside)
 or adds `ab` cells below and `g` cells above with the relations guaranteed by `make_accessible`. -/
@@ -86,41 +169,18 @@ theorem grow_cases {l : Lay} {a b : Int} (hl : l.Wide)
         l.needBelow a ≤ ab ∧ l.needAbove b ≤ g ∧
         ab + g = max (l.size / 2) (l.needBelow a + l.needAbove b) ∧
         (l.needBelow a = 0 → ab = 0) ∧ (l.needBelow a ≠ 0 → l.needAbove b = 0 → g = 0) ∧
-        ab = l.mem.addedBelow a b) := by
-  have ho := mem_offset hl
-  have hg : l.mem.growth a b = l.mem.growthSpec a b := by
-    unfold Lay.Wide bound at hl
-    unfold bound at *
-    apply growth_eq_wide <;> (try rw [ho]) <;> (try (show ((l.size : Nat) : Int) ≤ _)) <;> omega
-  have hnb : l.mem.neededBelow a = l.needBelow a := by
-    unfold neededBelow Lay.needBelow; rw [ho]
-  have hna : l.mem.neededAbove b = l.needAbove b := by
-    unfold neededAbove Lay.needAbove; rw [ho]; rfl
-  have hgrow : l.grow a b =
-      if l.needBelow a = 0 ∧ l.needAbove b = 0 then l
-      else { size := l.mem.newSize a b, cur := l.cur + (l.mem.addedBelow a b : Int) } := by
-    show (if (l.mem.growth a b).1 = 0 ∧ (l.mem.growth a b).2.1 = 0 then l
-      else { size := (l.mem.growth a b).2.2.1, cur := l.cur + ((l.mem.growth a b).2.2.2 : Int) }) = _
-    rw [hg]
-    simp only [growthSpec, hnb, hna]
-  rw [hgrow]
-  obtain ⟨b1, b2, b3, b4, _⟩ := addedBelow_bounds l.mem a b
-  have hns : l.mem.newSize a b = l.size + max (l.size / 2) (l.needBelow a + l.needAbove b) := by
-    unfold newSize; rw [hnb, hna]; rfl
-  rw [hnb] at b1 b3 b4
-  rw [hna] at b2 b4
-  rw [hns] at b2 b4 ⊢
-  generalize l.mem.addedBelow a b = AB at *
-  have dnb : l.needBelow a = (-(l.cur + a)).toNat := rfl
-  have dna : l.needAbove b = (l.cur + b - l.size).toNat := rfl
-  generalize l.needBelow a = nb at *
-  generalize l.needAbove b = na at *
-  by_cases hn : nb = 0 ∧ na = 0
-  · rw [if_pos hn]
-    exact Or.inl ⟨by omega, by omega, rfl⟩
-  · rw [if_neg hn]
-    refine Or.inr ⟨by omega, AB, max (l.size / 2) (nb + na) - AB, ?_, b1, by omega, by omega, b3, ?_, rfl⟩
+        ab = l.addedBelow a b) := by
+  rw [grow_eq hl ha1 ha2 hb1 hb2]
+  obtain ⟨b1, b2, b3, b4⟩ := addedBelow_bounds l a b
+  have hn := noGrowth_iff l a b
+  by_cases h : l.NoGrowth a b
+  · rw [if_pos h]
+    exact Or.inl ⟨(hn.1 h).1, (hn.1 h).2, rfl⟩
+  · rw [if_neg h]
+    refine Or.inr ⟨fun h' => h (hn.2 h'), l.addedBelow a b, l.added a b - l.addedBelow a b, ?_, b1,
+      by omega, ?_, b3, ?_, rfl⟩
     · congr 1; omega
+    · show _ = l.added a b; omega
     · intro h0 h1
       have := b4 h0 h1
       omega
@@ -139,9 +199,390 @@ theorem inBounds_iff (l : Lay) (o : Int) :
   unfold Lay.inBounds
   simp only [Bool.and_eq_true, decide_eq_true_eq]
 
-theorem inBounds_false_iff (l : Lay) (o : Int) :
+theorem not_inBounds_iff (l : Lay) (o : Int) :
     ¬ (l.inBounds o = true) ↔ (l.cur + o < 0 ∨ (l.size : Int) ≤ l.cur + o) := by
   rw [inBounds_iff]; omega
+
+theorem inWindow_iff (l : Lay) (mn mx : Int) :
+    l.InWindow mn mx ↔ 0 ≤ l.cur + mn ∧ l.cur + mx < (l.size : Int) := Iff.rfl
+
+/-- The shape of a growth: `below` cells added below, `above` cells above, the pointer index moves up
+by `below`; the requested range is inside afterwards and nothing that was inside falls out. -/
+theorem grow_shape {l : Lay} {a b : Int} (hl : l.Wide)
+    (ha1 : -(4 * bound) ≤ a) (ha2 : a ≤ 4 * bound) (hb1 : -(4 * bound) ≤ b) (hb2 : b ≤ 4 * bound) :
+    ∃ below above : Nat,
+      (l.grow a b).size = below + l.size + above ∧
+      (l.grow a b).cur = l.cur + below ∧
+      below = (if l.NoGrowth a b then 0 else l.addedBelow a b) ∧
+      (∀ i, a ≤ i → i < b → (l.grow a b).inBounds i = true) ∧
+      (∀ o, l.inBounds o = true → (l.grow a b).inBounds o = true) := by
+  have hn := noGrowth_iff l a b
+  rcases grow_cases hl ha1 ha2 hb1 hb2 with ⟨h1, h2, h3⟩ | ⟨h1, ab, g, h3, h4, h5, h6, h7, h8, h9⟩
+  · refine ⟨0, 0, by rw [h3]; omega, by rw [h3]; omega, by rw [if_pos (hn.2 ⟨h1, h2⟩)], ?_, ?_⟩
+    · intro i hi1 hi2
+      rw [h3, inBounds_iff]; omega
+    · intro o ho; rw [h3]; exact ho
+  · refine ⟨ab, g, by rw [h3], by rw [h3], by rw [if_neg (fun h => h1 (hn.1 h))]; exact h9, ?_, ?_⟩
+    · intro i hi1 hi2
+      rw [h3, inBounds_iff]
+      unfold Lay.needBelow at h4
+      unfold Lay.needAbove at h5
+      simp only
+      omega
+    · intro o ho
+      rw [inBounds_iff] at ho
+      rw [h3, inBounds_iff]
+      simp only
+      omega
+
+/-! ### moves -/
+
+/-- The window after a growth for `[mn, mx + 1)`. -/
+theorem grow_inWindow {l : Lay} {mn mx : Int} (hl : l.Wide) (h0 : mn ≤ mx)
+    (hmn : SmallArg mn) (hmx : SmallArg mx) : (l.grow mn (mx + 1)).InWindow mn mx := by
+  obtain ⟨m1, m2⟩ := hmn
+  obtain ⟨m3, m4⟩ := hmx
+  obtain ⟨_, _, _, _, _, h, _⟩ := grow_shape (l := l) (a := mn) (b := mx + 1) hl
+    (by unfold bound at *; omega) (by unfold bound at *; omega) (by unfold bound at *; omega)
+    (by unfold bound at *; omega)
+  have h1 := (inBounds_iff _ _).1 (h mn (Int.le_refl _) (by omega))
+  have h2 := (inBounds_iff _ _).1 (h mx h0 (by omega))
+  exact ⟨h1.1, h2.2⟩
+
+/-- What a move in the JIT's checked mode does when the probe fails: it is `make_accessible` for the
+single probe cell, expressed relative to the moved pointer. -/
+theorem move_jit_eq (mn mx : Int) (l : Lay) (sh : Int) :
+    Lay.move .jitSafe mn mx l sh =
+      let l' : Lay := { l with cur := l.cur + sh }
+      let probe := if sh < 0 then mn else mx
+      if l'.inBounds probe then l'
+      else
+        let lg := ({ l' with cur := l'.cur + probe } : Lay).grow 0 1
+        { lg with cur := lg.cur - probe } := rfl
+
+theorem move_threaded_eq (mn mx : Int) (l : Lay) (sh : Int) :
+    Lay.move .threadedSafe mn mx l sh =
+      let l' : Lay := { l with cur := l.cur + sh }
+      let probe := if sh < 0 then mn else mx
+      if l'.inBounds probe then l' else l'.grow mn (mx + 1) := rfl
+
+/-- The window invariant is kept by every move in the two checked modes. -/
+theorem move_inWindow' {mode : Mode} (hmode : mode ≠ .unchecked) {mn mx : Int} {l : Lay} (sh : Int)
+    (h0 : mn ≤ 0) (h1 : 0 ≤ mx) (hw : l.InWindow mn mx)
+    (hs : (l.size : Int) < bound) (hmn : SmallArg mn) (hmx : SmallArg mx) (hsh : SmallArg sh) :
+    (Lay.move mode mn mx l sh).InWindow mn mx := by
+  obtain ⟨w1, w2⟩ := hw
+  have m1 := hmn.1; have m2 := hmn.2; have m3 := hmx.1; have m4 := hmx.2
+  have s1 := hsh.1; have s2 := hsh.2
+  cases mode with
+  | unchecked => exact absurd rfl hmode
+  | threadedSafe =>
+    rw [move_threaded_eq]
+    simp only
+    by_cases hneg : sh < 0
+    · simp only [hneg, ↓reduceIte]
+      by_cases hp : ({ size := l.size, cur := l.cur + sh } : Lay).inBounds mn = true
+      · rw [if_pos hp]
+        rw [inBounds_iff] at hp
+        simp only at hp
+        exact ⟨hp.1, by simp only; omega⟩
+      · rw [if_neg hp]
+        apply grow_inWindow _ (by omega) hmn hmx
+        unfold Lay.Wide bound at *
+        simp only
+        omega
+    · simp only [hneg, ↓reduceIte]
+      by_cases hp : ({ size := l.size, cur := l.cur + sh } : Lay).inBounds mx = true
+      · rw [if_pos hp]
+        rw [inBounds_iff] at hp
+        simp only at hp
+        exact ⟨by simp only; omega, hp.2⟩
+      · rw [if_neg hp]
+        apply grow_inWindow _ (by omega) hmn hmx
+        unfold Lay.Wide bound at *
+        simp only
+        omega
+  | jitSafe =>
+    rw [move_jit_eq]
+    simp only
+    by_cases hneg : sh < 0
+    · simp only [hneg, ↓reduceIte]
+      by_cases hp : ({ size := l.size, cur := l.cur + sh } : Lay).inBounds mn = true
+      · rw [if_pos hp]
+        rw [inBounds_iff] at hp
+        simp only at hp
+        exact ⟨hp.1, by simp only; omega⟩
+      · rw [if_neg hp]
+        rw [not_inBounds_iff] at hp
+        simp only at hp
+        have hwide : ({ size := l.size, cur := l.cur + sh + mn } : Lay).Wide := by
+          unfold Lay.Wide bound at *
+          simp only
+          omega
+        rcases grow_cases (a := 0) (b := 1) hwide (by unfold bound; omega) (by unfold bound; omega)
+          (by unfold bound; omega) (by unfold bound; omega) with
+          ⟨c1, c2, c3⟩ | ⟨c1, ab, g, c3, c4, c5, c6, c7, c8, _⟩
+        · simp only at c1 c2
+          omega
+        · rw [c3]
+          unfold Lay.needBelow at c4 c7 c8
+          unfold Lay.needAbove at c5 c8
+          unfold Lay.needBelow Lay.needAbove at c6
+          simp only at c1 c4 c5 c6 c7 c8
+          unfold Lay.InWindow
+          simp only
+          have hg : g = 0 := c8 (by omega) (by omega)
+          omega
+    · simp only [hneg, ↓reduceIte]
+      by_cases hp : ({ size := l.size, cur := l.cur + sh } : Lay).inBounds mx = true
+      · rw [if_pos hp]
+        rw [inBounds_iff] at hp
+        simp only at hp
+        exact ⟨by simp only; omega, hp.2⟩
+      · rw [if_neg hp]
+        rw [not_inBounds_iff] at hp
+        simp only at hp
+        have hwide : ({ size := l.size, cur := l.cur + sh + mx } : Lay).Wide := by
+          unfold Lay.Wide bound at *
+          simp only
+          omega
+        rcases grow_cases (a := 0) (b := 1) hwide (by unfold bound; omega) (by unfold bound; omega)
+          (by unfold bound; omega) (by unfold bound; omega) with
+          ⟨c1, c2, c3⟩ | ⟨c1, ab, g, c3, c4, c5, c6, c7, c8, _⟩
+        · simp only at c1 c2
+          omega
+        · rw [c3]
+          unfold Lay.needBelow at c4 c7 c8
+          unfold Lay.needAbove at c5 c8
+          unfold Lay.needBelow Lay.needAbove at c6
+          simp only at c1 c4 c5 c6 c7 c8
+          unfold Lay.InWindow
+          simp only
+          have hab : ab = 0 := c7 (by omega)
+          omega
+
+/-- `enter` establishes the window from any layout inside the guard. -/
+theorem enter_inWindow' {mode : Mode} (hmode : mode ≠ .unchecked) {mn mx : Int} {l : Lay}
+    (h0 : mn ≤ mx) (hl : l.Small) (hmn : SmallArg mn) (hmx : SmallArg mx) :
+    (l.enter mode mn mx).InWindow mn mx := by
+  cases mode with
+  | unchecked => exact absurd rfl hmode
+  | threadedSafe => exact grow_inWindow hl.wide h0 hmn hmx
+  | jitSafe => exact grow_inWindow hl.wide h0 hmn hmx
+
+/-- A growth request for a window that is already inside changes nothing. -/
+theorem grow_noop {l : Lay} {mn mx : Int} (hw : l.InWindow mn mx) (h0 : mn ≤ mx)
+    (hs : (l.size : Int) < bound) (hmn : SmallArg mn) (hmx : SmallArg mx) :
+    l.grow mn (mx + 1) = l := by
+  obtain ⟨w1, w2⟩ := hw
+  have m1 := hmn.1; have m2 := hmn.2; have m3 := hmx.1; have m4 := hmx.2
+  have hwide : l.Wide := by unfold Lay.Wide bound at *; omega
+  rcases grow_cases (a := mn) (b := mx + 1) hwide (by unfold bound at *; omega)
+    (by unfold bound at *; omega) (by unfold bound at *; omega) (by unfold bound at *; omega) with
+    ⟨_, _, c3⟩ | ⟨c1, _⟩
+  · exact c3
+  · omega
+
+theorem re_enter_noop' (mode : Mode) {l : Lay} {mn mx : Int} (hw : l.InWindow mn mx) (h0 : mn ≤ mx)
+    (hs : (l.size : Int) < bound) (hmn : SmallArg mn) (hmx : SmallArg mx) :
+    l.enter mode mn mx = l := by
+  cases mode with
+  | unchecked => rfl
+  | threadedSafe => exact grow_noop hw h0 hs hmn hmx
+  | jitSafe => exact grow_noop hw h0 hs hmn hmx
+
+/-! ### the link to the tape object -/
+
+/-- The layout after `Memory::make_accessible` is `Lay.grow` of the layout before. -/
+theorem lay_of_makeAccessible' {m : Mem w} {a b : Int} (hm : (Lay.ofMem m).Small)
+    (ha : SmallArg a) (hb : SmallArg b) :
+    Lay.ofMem (m.makeAccessible a b) = (Lay.ofMem m).grow a b := by
+  have a1 := ha.1; have a2 := ha.2; have b1 := hb.1; have b2 := hb.2
+  have hg := growth_closed (m := m) (a := a) (b := b) hm.wide (by unfold bound at *; omega)
+    (by unfold bound at *; omega) (by unfold bound at *; omega) (by unfold bound at *; omega)
+  rw [grow_eq hm.wide (by unfold bound at *; omega) (by unfold bound at *; omega)
+    (by unfold bound at *; omega) (by unfold bound at *; omega)]
+  unfold Mem.makeAccessible
+  rw [hg]
+  simp only
+  by_cases hn : (Lay.ofMem m).NoGrowth a b
+  · have hn' : (Lay.ofMem m).needBelow a = 0 ∧ (Lay.ofMem m).needAbove b = 0 := hn
+    rw [if_pos hn, if_pos hn']
+  · have hn' : ¬ ((Lay.ofMem m).needBelow a = 0 ∧ (Lay.ofMem m).needAbove b = 0) := hn
+    rw [if_neg hn, if_neg hn']
+    obtain ⟨_, q2, _, _⟩ := addedBelow_bounds (Lay.ofMem m) a b
+    have hadd : (Lay.ofMem m).added a b =
+        max (m.size / 2) ((-(asI64 m.offset + a)).toNat + (asI64 m.offset + b - m.size).toNat) := rfl
+    obtain ⟨s1, s2, s3⟩ := hm
+    simp only [Lay.ofMem] at s1 s2 s3
+    generalize (Lay.ofMem m).addedBelow a b = AB at *
+    generalize (Lay.ofMem m).added a b = AD at *
+    unfold Lay.ofMem
+    simp only
+    congr 1
+    rw [wrapU64_off]
+    unfold bound at *
+    apply asI64_wrapU64 <;> omega
+
+/-! ### runs -/
+
+open Bc BcWf
+
+/-- The pointer shift an instruction can cause. -/
+def shiftOf : Instr w → Int
+  | .mov sh => sh
+  | .scan _ sh => sh
+  | _ => 0
+
+/-- Static part of the range guard: the window constants and every shift of the program are below
+`2^59` in magnitude. -/
+def SmallProg (p : Program w) : Prop :=
+  SmallArg p.minAcc ∧ SmallArg p.maxAcc ∧ ∀ ins ∈ p.insts.toList, SmallArg (shiftOf ins)
+
+instance (p : Program w) : Decidable (SmallProg p) := by unfold SmallProg; infer_instance
+
+theorem SmallProg.shift {p : Program w} (h : SmallProg p) {i : Nat} {ins : Instr w}
+    (hi : p.insts[i]? = some ins) : SmallArg (shiftOf ins) :=
+  h.2.2 ins (Array.mem_toList_iff.2 (Array.mem_of_getElem? hi))
+
+/-- Dynamic part of the range guard, by recursion along `runLay`: the allocation is smaller than
+`2^59` cells at every instruction boundary of the run. -/
+def smallRun (mode : Mode) (p : Program w) (limited : Bool) : Nat → Cfg w → Lay → Bool
+  | 0, _, l => decide ((l.size : Int) < bound)
+  | fuel + 1, c, l =>
+    decide ((l.size : Int) < bound) &&
+    match Bc.step p limited c with
+    | .next c' => smallRun mode p limited fuel c' (layStep mode p c c' l)
+    | _ => true
+
+theorem move_size_ge (mode : Mode) (mn mx : Int) (l : Lay) (sh : Int) :
+    l.size ≤ (Lay.move mode mn mx l sh).size := by
+  cases mode with
+  | unchecked => exact Nat.le_refl _
+  | threadedSafe =>
+    rw [move_threaded_eq]
+    simp only
+    generalize (if sh < 0 then mn else mx) = probe
+    split
+    · exact Nat.le_refl _
+    · exact grow_size_ge { size := l.size, cur := l.cur + sh } mn (mx + 1)
+  | jitSafe =>
+    rw [move_jit_eq]
+    simp only
+    generalize (if sh < 0 then mn else mx) = probe
+    split
+    · exact Nat.le_refl _
+    · exact grow_size_ge { size := l.size, cur := l.cur + sh + probe } 0 1
+
+theorem layStep_size_ge (mode : Mode) (p : Program w) (c c' : Cfg w) (l : Lay) :
+    l.size ≤ (layStep mode p c c' l).size := by
+  unfold layStep
+  split
+  · exact move_size_ge _ _ _ _ _
+  · split
+    · exact move_size_ge _ _ _ _ _
+    · exact Nat.le_refl _
+  · exact Nat.le_refl _
+
+/-- The allocation only grows along a run (every mode, no guard). -/
+theorem runLay_size_ge (mode : Mode) (p : Program w) (limited : Bool) :
+    ∀ (fuel : Nat) (c : Cfg w) (l : Lay) (ok : Bool),
+      l.size ≤ (runLay mode p limited fuel c l ok).lay.size := by
+  intro fuel
+  induction fuel with
+  | zero => intro c l ok; simp only [runLay]; exact Nat.le_refl _
+  | succ n ih =>
+    intro c l ok
+    simp only [runLay]
+    cases hs : Bc.step p limited c with
+    | next c' =>
+      simp only
+      exact Nat.le_trans (layStep_size_ge mode p c c' l) (ih _ _ _)
+    | halt c' => exact Nat.le_refl _
+    | stop c' => exact Nat.le_refl _
+    | interrupted c' => exact Nat.le_refl _
+    | bad c' => exact Nat.le_refl _
+
+/-- Because sizes are monotone, the dynamic guard follows from a bound on the FINAL size. -/
+theorem smallRun_of_final (mode : Mode) (p : Program w) (limited : Bool) :
+    ∀ (fuel : Nat) (c : Cfg w) (l : Lay) (ok : Bool),
+      ((runLay mode p limited fuel c l ok).lay.size : Int) < bound →
+      smallRun mode p limited fuel c l = true := by
+  intro fuel
+  induction fuel with
+  | zero =>
+    intro c l ok h
+    simp only [runLay] at h
+    simp only [smallRun, decide_eq_true_eq]
+    exact h
+  | succ n ih =>
+    intro c l ok h
+    have hge := runLay_size_ge mode p limited (n + 1) c l ok
+    simp only [smallRun, Bool.and_eq_true, decide_eq_true_eq]
+    refine ⟨by omega, ?_⟩
+    simp only [runLay] at h
+    cases hs : Bc.step p limited c with
+    | next c' =>
+      simp only [hs] at h
+      simp only
+      exact ih _ _ _ h
+    | halt c' => rfl
+    | stop c' => rfl
+    | interrupted c' => rfl
+    | bad c' => rfl
+
+theorem accessOk_of_inWindow {p : Program w} (L : C11.LocalFacts p) (pc : Nat) {l : Lay}
+    (hw : l.InWindow p.minAcc p.maxAcc) : accessOk p pc l = true := by
+  unfold accessOk
+  cases hi : p.insts[pc]? with
+  | none => rfl
+  | some ins =>
+    simp only [List.all_eq_true]
+    intro o ho
+    have := L.window hi o ho
+    rw [inBounds_iff]
+    obtain ⟨w1, w2⟩ := hw
+    omega
+
+theorem layStep_inWindow {mode : Mode} (hmode : mode ≠ .unchecked) {p : Program w}
+    (L : C11.LocalFacts p) (hp : SmallProg p) (c c' : Cfg w) {l : Lay}
+    (hw : l.InWindow p.minAcc p.maxAcc) (hs : (l.size : Int) < bound) :
+    (layStep mode p c c' l).InWindow p.minAcc p.maxAcc := by
+  unfold layStep
+  split
+  · rename_i sh hi
+    exact move_inWindow' hmode sh L.min0 L.max0 hw hs hp.1 hp.2.1 (hp.shift hi)
+  · rename_i cond sh hi
+    split
+    · exact move_inWindow' hmode sh L.min0 L.max0 hw hs hp.1 hp.2.1 (hp.shift hi)
+    · exact hw
+  · exact hw
+
+/-- The invariant: in the checked modes the window is inside the allocation at every instruction
+boundary, hence every access is inside. -/
+theorem runLay_ok {mode : Mode} (hmode : mode ≠ .unchecked) {p : Program w}
+    (L : C11.LocalFacts p) (hp : SmallProg p) (limited : Bool) :
+    ∀ (fuel : Nat) (c : Cfg w) (l : Lay), l.InWindow p.minAcc p.maxAcc →
+      smallRun mode p limited fuel c l = true →
+      (runLay mode p limited fuel c l true).ok = true ∧
+      (runLay mode p limited fuel c l true).lay.InWindow p.minAcc p.maxAcc := by
+  intro fuel
+  induction fuel with
+  | zero => intro c l hw _; simp only [runLay]; exact ⟨trivial, hw⟩
+  | succ n ih =>
+    intro c l hw hg
+    simp only [smallRun, Bool.and_eq_true, decide_eq_true_eq] at hg
+    obtain ⟨hs, hg⟩ := hg
+    simp only [runLay, accessOk_of_inWindow L c.pc hw, Bool.and_self]
+    cases hst : Bc.step p limited c with
+    | next c' =>
+      simp only [hst] at hg
+      simp only
+      exact ih _ _ (layStep_inWindow hmode L hp c c' hw hs) hg
+    | halt c' => exact ⟨rfl, hw⟩
+    | stop c' => exact ⟨rfl, hw⟩
+    | interrupted c' => exact ⟨rfl, hw⟩
+    | bad c' => exact ⟨rfl, hw⟩
 
 end C06
 end Hpbf
